@@ -283,6 +283,20 @@ pub fn c02_cases(c: &Corpus, quick: bool) -> Vec<IoRun> {
             }
         }
     }
+    // strings whose field element has structured Montgomery limbs: every one through every entry shape
+    for b in &c.mont {
+        for as_ in [ElemAs::Element, ElemAs::Affine, ElemAs::Encoding] {
+            out.push(IoRun {
+                records: vec![one_record(
+                    Payload::RawElem { bytes: hex(b), as_ },
+                    IoPlan::default(),
+                    IoPlan::default(),
+                    RecvMode::Compressed,
+                )],
+                ..Default::default()
+            });
+        }
+    }
     // encodings with a chosen discriminant (prescribed table digits of the square-root routine):
     // every one through every entry shape, intact and with the record split / interrupted
     for b in c.table_probe() {
@@ -594,6 +608,11 @@ pub fn c11_cases(quick: bool) -> Vec<IoRun> {
                     }
                 }
             }
+        }
+        // and elements with structured Montgomery limbs (fixed list per field)
+        let mut mr = simcore::prng::Rng::new(simcore::prng::sub_seed(0xC0FFEE, "c11/mont"));
+        for _ in 0..32 {
+            vals.push(super::gen::mont_value(&mut mr, f));
         }
         for chunk in vals.chunks(8) {
             out.push(IoRun {
